@@ -245,6 +245,7 @@ func c12ByLanguage(p *Program, r *Report) bool {
 	// L3: the helper that cuts commas off the URL token writes them back encoded, and nothing else
 	{
 		cf := oe.Fidelity
+		cf.evaluate()
 		c := cn + "#comma-encoding"
 		switch {
 		case len(cf.Bad) > 0:
